@@ -176,7 +176,7 @@ Proof.
 Qed.
 
 (* ---------- sums over the pod list ---------- *)
-Definition setp (p : pod) (b : bool) : pod := mkPod (p_id p) (p_quota p) (p_req p) (p_keys p) (p_np p) b.
+Definition setp (p : pod) (b : bool) : pod := mkPod (p_id p) (p_quota p) (p_req p) (p_keys p) (p_np p) b (p_bound p).
 
 Lemma find_pod_none id ps : find_pod id ps = None -> ~ In id (map p_id ps).
 Proof.
@@ -234,7 +234,7 @@ Lemma shareq_setp sel qs i p b d :
   = if sel p && b && mem_id i (pidsq qs (p_quota p)) then vget (deltaq qs p) d else 0.
 Proof.
   intro Hs. unfold shareq, setp. cbn [p_assigned p_quota]. unfold deltaq. cbn [p_quota p_req].
-  rewrite (Hs (mkPod (p_id p) (p_quota p) (p_req p) (p_keys p) (p_np p) b) p eq_refl). reflexivity.
+  rewrite (Hs (mkPod (p_id p) (p_quota p) (p_req p) (p_keys p) (p_np p) b (p_bound p)) p eq_refl). reflexivity.
 Qed.
 Lemma sel_all_np x y : p_np x = p_np y -> sel_all x = sel_all y.
 Proof. reflexivity. Qed.
@@ -359,6 +359,76 @@ Section Charge.
     rewrite !(sum_remove_pod _ id ps p Hnd Hf). unfold shareq. rewrite Ha, !andb_false_r. cbn [andb]. split; lia.
   Qed.
 End Charge.
+
+(* ---------- a pod's preemptible label flips ---------- *)
+Lemma sum_set_np (G : pod -> Z) id ps p :
+  NoDup (map p_id ps) -> find_pod id ps = Some p ->
+  sumZ (map G (set_np id ps)) = sumZ (map G ps) - G p + G (flip_np p).
+Proof.
+  unfold set_np. induction ps as [|x t IH]; cbn [find_pod map]; intros Hnd Hf; [discriminate|].
+  inversion Hnd as [|? ? Hx Ht]; subst. rewrite !sumZ_cons.
+  destruct (p_id x =? id) eqn:E.
+  - injection Hf as <-. apply Z.eqb_eq in E.
+    assert (Hrest : map (fun p0 => if p_id p0 =? id then flip_np p0 else p0) t = t).
+    { rewrite <- (map_id t) at 2. apply map_ext_in. intros y Hy.
+      destruct (p_id y =? id) eqn:Ey; [|reflexivity]. exfalso. apply Hx.
+      apply Z.eqb_eq in Ey. rewrite E, <- Ey. apply in_map. exact Hy. }
+    rewrite Hrest. lia.
+  - rewrite (IH Ht Hf). lia.
+Qed.
+
+Lemma shareq_all_flip qs i p d : shareq sel_all qs i (flip_np p) d = shareq sel_all qs i p d.
+Proof. reflexivity. Qed.
+Lemma shareq_np_flip qs i p d :
+  shareq p_np qs i (flip_np p) d
+  = if negb (p_np p) && p_assigned p && mem_id i (pidsq qs (p_quota p)) then vget (deltaq qs p) d else 0.
+Proof. reflexivity. Qed.
+
+Lemma EXQ_set_np_unassigned qs ps id p :
+  NoDup (map p_id ps) -> find_pod id ps = Some p -> p_assigned p = false ->
+  EXQ qs ps -> EXQ qs (set_np id ps).
+Proof.
+  intros Hnd Hf Ha H q Hq d. destruct (H q Hq d) as [Hu Hn]. rewrite Hu, Hn. unfold expq.
+  rewrite !(sum_set_np _ id ps p Hnd Hf), shareq_all_flip, shareq_np_flip.
+  assert (Z1 : shareq sel_all qs (q_id q) p d = 0) by (unfold shareq; rewrite Ha, andb_false_r; reflexivity).
+  assert (Z3 : shareq p_np qs (q_id q) p d = 0) by (unfold shareq; rewrite Ha, andb_false_r; reflexivity).
+  assert (Z2 : (if negb (p_np p) && p_assigned p && mem_id (q_id q) (pidsq qs (p_quota p))
+                then vget (deltaq qs p) d else 0) = 0) by (rewrite Ha, andb_false_r; reflexivity).
+  rewrite Z1, Z2, Z3. split; rewrite Z.sub_0_r, Z.add_0_r; reflexivity.
+Qed.
+
+Lemma EXQ_relabel_assigned qs ps id p :
+  NoDup (map p_id ps) -> find_pod id ps = Some p -> p_assigned p = true ->
+  (forall x, In x ps -> forall d, 0 <= vget (deltaq qs x) d) ->
+  EXQ qs ps ->
+  EXQ (upd_used (pidsq qs (p_quota p)) (fun u => u)
+                (fun u => if p_np p then vsub_clamp u (deltaq qs p) else vadd u (deltaq qs p)) qs)
+      (set_np id ps).
+Proof.
+  intros Hnd Hf Ha Hpos H.
+  set (ids := pidsq qs (p_quota p)). set (dl := deltaq qs p).
+  set (h := fun q => if mem_id (q_id q) ids
+                     then set_usage q (q_used q) (if p_np p then vsub_clamp (q_npused q) dl else vadd (q_npused q) dl)
+                     else q).
+  assert (Eh : upd_used ids (fun u => u) (fun u => if p_np p then vsub_clamp u dl else vadd u dl) qs = map h qs)
+    by reflexivity.
+  assert (K : keepsd h).
+  { split; [|intro q; unfold h; destruct (mem_id _ _); reflexivity].
+    intro q. unfold h. destruct (mem_id _ _); cbn; auto. }
+  assert (Hid : forall q, q_id (h q) = q_id q) by (intro q; unfold h; destruct (mem_id _ _); reflexivity).
+  rewrite Eh. intros q' Hq' d. apply in_map_iff in Hq'. destruct Hq' as (q & <- & Hq).
+  rewrite !(expq_map _ h qs _ _ d K), Hid.
+  destruct (H q Hq d) as [Hu Hn].
+  pose proof (proj2 (share_le qs ps id p Hf Hpos p_np (q_id q) d)) as L.
+  unfold expq. rewrite !(sum_set_np _ id ps p Hnd Hf), shareq_all_flip, shareq_np_flip.
+  fold (expq sel_all qs ps (q_id q) d) (expq p_np qs ps (q_id q) d).
+  unfold shareq in L |- *. rewrite Ha in L |- *. fold ids dl in L |- *.
+  rewrite <- Hn in L. rewrite <- Hu, <- Hn. unfold h.
+  destruct (mem_id (q_id q) ids) eqn:E; cbn [q_used q_npused set_usage].
+  - rewrite ?andb_true_r in L |- *.
+    destruct (p_np p); cbn [andb negb] in L |- *; rewrite ?vget_vsub_clamp, ?vget_vadd; split; lia.
+  - destruct (p_np p); cbn [andb negb]; split; lia.
+Qed.
 
 (* a new, unassigned pod changes no sum *)
 Lemma EXQ_pod_add qs ps p : p_assigned p = false -> EXQ qs ps -> EXQ qs (ps ++ [p]).
@@ -530,7 +600,7 @@ Proof.
   assert (Iw : INV cfg (wf && op_okb st sn o) st) by (apply (INV_weaken _ wf); assumption).
   (* reduce to wf' = true / false uniformly: in the false case only STR matters *)
   destruct o as [id parent lend decl mx mindecl mn w|id mx mindecl mn w|id qn np req keys|id|id|id|id|id|t
-                 |id qn np req keys|id|]; unfold step, apply_attempt; cbv zeta.
+                 |id qn np req keys|id|id|]; unfold step, apply_attempt; cbv zeta.
   - (* quota add *)
     destruct (id <=? 0) eqn:E0; cbn [orb fst]; [exact Xw|].
     destruct (find_quota id (quotas st)) eqn:Ef; cbn [orb fst]; [exact Xw|].
@@ -626,7 +696,7 @@ Proof.
     destruct (find_pod id (pods st)) eqn:Efp; cbn [fst]; [exact Xw|].
     destruct (find_quota qn (quotas st)) as [q0|] eqn:Efq; cbn [fst]; [|exact Xw].
     destruct st as [qs0 ps tot]. cbn [quotas pods total] in *.
-    set (p := mkPod id qn req keys np false).
+    set (p := mkPod id qn req keys np false true).
     apply EXI_charge; [|cbn [pods]; apply find_pod_app_new; [exact Efp|reflexivity]|reflexivity].
     apply EXI_touch. apply EXI_taint with (ids := map q_id (path (mkState qs0 ps tot) qn)) in Xw.
     destruct Xw as [[Ho Hn Hq] E]. cbn [quotas pods] in *. split.
@@ -641,6 +711,48 @@ Proof.
     apply EXI_refresh. apply EXI_map; [| |exact Xw].
     + split; [apply neutral_keeps, neutral_flip|]. intro q. destruct (q_id q =? id); reflexivity.
     + intro q. destruct (q_id q =? id); split; reflexivity.
+  - (* pod relabel *)
+    destruct (find_pod id (pods st)) as [p|] eqn:Ef; cbn [fst]; [|exact Xw].
+    pose proof (find_pod_some _ _ _ Ef) as [Hpin Hid].
+    destruct st as [qs0 ps tot]. cbn [quotas pods total] in *.
+    assert (Hids : map p_id (set_np id ps) = map p_id ps).
+    { unfold set_np. rewrite map_map. apply map_ext. intro x. destruct (p_id x =? id); reflexivity. }
+    assert (Hsub : forall x, In x (set_np id ps) -> exists x0, In x0 ps /\ p_quota x = p_quota x0).
+    { intros x Hx. apply in_set_np in Hx. destruct Hx as (x0 & Hx0 & _ & _ & Hq). eauto. }
+    assert (S' : forall qs', map q_id qs' = map q_id qs0 -> ord qs' -> STR (mkState qs' (set_np id ps) tot)).
+    { intros qs' Eq Ho'. destruct Xw as [[Ho Hn Hq] _]. cbn [quotas pods] in *.
+      constructor; cbn [quotas pods]; [exact Ho'|rewrite Hids; exact Hn|].
+      intros x Hx. destruct (Hsub x Hx) as (x0 & Hx0 & ->). rewrite Eq. apply Hq. exact Hx0. }
+    destruct (p_assigned p) eqn:Ea.
+    + cbn [fst]. apply EXI_touch.
+      destruct (wf && op_okb (mkState qs0 ps tot) sn (OPodRelabel id)) eqn:W.
+      * pose proof (Hwf eq_refl) as Wt. subst wf. destruct X as [[Ho Hn Hq] E]. cbn [quotas pods] in *.
+        split.
+        -- apply S'; [apply upd_used_ids|].
+           intros q Hin. unfold upd_used in Hin. apply in_map_iff in Hin. destruct Hin as (x & <- & Hx).
+           destruct (mem_id _ _); cbn; apply Ho; exact Hx.
+        -- intros _. cbn [quotas pods].
+           change (map q_id (path (mkState qs0 ps tot) (p_quota p))) with (pidsq qs0 (p_quota p)).
+           change (pod_delta (mkState qs0 ps tot) p) with (deltaq qs0 p).
+           apply EXQ_relabel_assigned; auto. apply (pods_pos cfg (mkState qs0 ps tot) I).
+      * split; [|discriminate]. apply S'; [apply upd_used_ids|].
+        destruct X as [[Ho _ _] _]. cbn [quotas] in Ho.
+        intros q Hin. unfold upd_used in Hin. apply in_map_iff in Hin. destruct Hin as (x & <- & Hx).
+        destruct (mem_id _ _); cbn; apply Ho; exact Hx.
+    + assert (X1 : EXI (wf && op_okb (mkState qs0 ps tot) sn (OPodRelabel id)) (mkState qs0 (set_np id ps) tot)).
+      { destruct Xw as [[Ho Hn Hq] E]. cbn [quotas pods] in *. split.
+        - apply S'; [reflexivity|exact Ho].
+        - intro W. cbn [quotas pods]. apply (EXQ_set_np_unassigned qs0 ps id p Hn Ef Ea (E W)). }
+      destruct (p_bound p); cbn [fst].
+      * apply EXI_charge.
+        -- apply EXI_touch. apply EXI_taint. exact X1.
+        -- cbn [pods p_id flip_np]. rewrite Hid. clear - Ef.
+           induction ps as [|x t IH]; cbn [find_pod set_np map] in *; [discriminate|].
+           destruct (p_id x =? id) eqn:E.
+           ++ injection Ef as <-. cbn [flip_np p_id]. rewrite E. reflexivity.
+           ++ rewrite E. apply IH. exact Ef.
+        -- exact Ea.
+      * apply EXI_touch. exact X1.
   - exact Xw.
 Qed.
 
